@@ -129,7 +129,7 @@ def run_e3(job):
         return check_audit_rows(rows, None, {})
 
     s = run_engine_scenario(workload, skip, scripts, oracle, job["bound"], shard=job.get("shard"),
-                            time_cap=job.get("time_cap", 1200), post_actions=post,
+                            time_cap=job.get("time_cap", 600), post_actions=post,
                             budget={a: 1 for a in post} if post else None)
     viols, seen = [], set()
     for v in s.pop("_violations"):
@@ -151,7 +151,7 @@ def build(job):
         sigspec = [{"stage": "G", "persistent": True}]
         job = dict(job, budget=dict(job.get("budget") or {}, signal=1))
     return Explorer(w, workload, [LegalTransitionMonitor()], job.get("budget"), signal_spec=sigspec,
-                    max_states=job.get("max_states", 150000), time_cap=job.get("time_cap", 1500))
+                    max_states=job.get("max_states", 150000), time_cap=job.get("time_cap", 600))
 
 
 def run_job(job):
